@@ -166,6 +166,14 @@ func evkLeaf(c *engine.Chooser, name string, k cfg) {
 			Stream: func(a multiparty.EvaluationKeyGenShare, wrap func(io.Reader) io.Reader) (multiparty.EvaluationKeyGenShare, error) {
 				return mp.StreamHop[multiparty.EvaluationKeyGenShare](a, wrap)
 			},
+			Used: func(which int) multiparty.EvaluationKeyGenShare {
+				r := protos[0].AllocateShare(mp.UsedShapes(params, which))
+				mp.FillGadget(params, &r.GadgetCiphertext, name, "used-receiver", which)
+				return r
+			},
+			Into: func(a multiparty.EvaluationKeyGenShare, recv *multiparty.EvaluationKeyGenShare) error {
+				return hopGadget(a.MarshalBinary, recv.UnmarshalBinary)
+			},
 			Flat: flat,
 		}
 		agg, ok := mp.Merge(c, ops, shares, k.search())
@@ -219,6 +227,15 @@ func evkLeaf(c *engine.Chooser, name string, k cfg) {
 			},
 			Stream: func(a multiparty.GaloisKeyGenShare, wrap func(io.Reader) io.Reader) (multiparty.GaloisKeyGenShare, error) {
 				return mp.StreamHop[multiparty.GaloisKeyGenShare](a, wrap)
+			},
+			Used: func(which int) multiparty.GaloisKeyGenShare {
+				r := protos[0].AllocateShare(mp.UsedShapes(params, which))
+				r.GaloisElement = altGalEl(params, k.galEl)
+				mp.FillGadget(params, &r.GadgetCiphertext, name, "used-receiver", which)
+				return r
+			},
+			Into: func(a multiparty.GaloisKeyGenShare, recv *multiparty.GaloisKeyGenShare) error {
+				return hopGadget(a.MarshalBinary, recv.UnmarshalBinary)
 			},
 			Flat: flat,
 		}
